@@ -857,6 +857,35 @@ func runC12(c *Ctx) {
 			}
 			c.check(good, fn, "dispatch "+spec.callee, fn.Pos(), "reaches "+spec.callee+" with group and source in place", spec.method+" does not call ipv4."+spec.callee+" (with the group and source arguments in their places) for the "+map[string]string{"empty": "any-source", "nonempty": "source-specific", "": ""}[spec.guard]+" case: membership changes are applied to the wrong filter")
 		}
+		// the exported entry points hand the group and the source they were given (parsed) to those functions
+		for _, spec := range []struct{ method, helper string }{{"JoinSourceOn", "joinIPv4"}, {"LeaveSource", "leaveIPv4"}, {"BlockSource", "blockIPv4"}, {"UnblockSource", "unblockIPv4"}} {
+			fn := p.Method("multicast", "UDPPeer", spec.method)
+			helper := p.Method("multicast", "UDPPeer", spec.helper)
+			byName := map[string]*ssa.Parameter{}
+			for _, q := range fn.Params {
+				byName[pinParamName(q)] = q
+			}
+			sites := deepCallsTo(fn, helper)
+			good := len(sites) > 0
+			why := spec.method + " does not reach " + spec.helper
+			for _, dc := range sites {
+				for i, q := range helper.Params {
+					name := pinParamName(q)
+					if name != "multicastIP" && name != "sourceIP" {
+						continue
+					}
+					src := byName[name]
+					if src == nil || i >= len(dc.Call.Call.Args) {
+						continue
+					}
+					if !dependsOnLoose(dc.translate(dc.Call.Call.Args[i]), src) {
+						good = false
+						why = "the " + name + " handed to " + spec.helper + " is not derived from the " + name + " argument of " + spec.method + " (a shadowed or stale variable): the request names no source / another group, so the kernel drops or filters a different membership than the caller asked for"
+					}
+				}
+			}
+			c.check(good, fn, "arguments reach "+spec.helper, fn.Pos(), "group and source are the parsed arguments", why)
+		}
 	}
 }
 
